@@ -201,7 +201,8 @@ Definition region_finding (l : list setting) : Z :=
   if trig_vcenter l then 3 else if trig_line l then 2 else if trig_clamp l then 1 else 0.
 
 (* ---- clauses.  Codes: 1 printer/text mismatch (harness), 2 exception, 3 cue count, 10 begin/end,
-   20 region, 30 text runs, 40 region sharing *)
+   20 region inside the root container, 21 writing mode / text alignment / display alignment, 22 edge fixed by the
+   line setting, 30 text runs, 40 region sharing *)
 Definition settings_text (c : cue) : text := flat_map (fun s => 32 :: print_setting s) (c_settings c).
 Definition time_ok (t : tstamp) (q : Q) : bool := Qeq_bool q (Qmake (ts_ms t) 1000).
 
@@ -212,7 +213,13 @@ Fixpoint judge_cues (rs : list region) (cs : list cue) (ps : list para) : list (
   | c :: cs', p :: ps' =>
     (if time_ok (c_begin c) (pa_begin p) && time_ok (c_end c) (pa_end p) then [] else [(10, 0)]) ++
     (match nth_error rs (Z.to_nat (pa_region p)) with
-     | Some r => if region_ok (c_settings c) (view_region r) then [] else [(20, region_finding (c_settings c))]
+     | Some r =>
+       let v := view_region r in
+       (* containment: excused by the geometry findings; mode and alignments: by none; the edge fixed by the line
+          setting: only by line-number-nonpositive *)
+       (if region_inside v then [] else [(20, region_finding (c_settings c))]) ++
+       (if region_align_ok (c_settings c) v then [] else [(21, 0)]) ++
+       (if line_edge_ok (c_settings c) v then [] else [(22, if trig_line (c_settings c) then 2 else 0)])
      | None => [(20, 0)]
      end) ++
     (if runs_eq (view_para p) (expected_runs c) then [] else [(30, text_finding (c_payload c))]) ++
